@@ -3,7 +3,7 @@
 P=$1; W=/tmp/mut/$P; O=/tmp/mut/$P.out
 HEAD=$(git -C /repo rev-parse HEAD)
 git -C $W checkout -q --detach $HEAD 2>/dev/null; git -C $W checkout -q -- . ; git -C $W clean -qfd -e target
-for v in ${VARIANTS:-a b alt c d e f g h}; do
+for v in ${VARIANTS:-a b alt c d e f g h i j}; do
   [ -f $O/$v/patch.diff ] || continue
   R=$O/$v/verify.txt; : > $R
   cd $W
